@@ -171,3 +171,13 @@ func init() {
 		Trusted: []string{"T1 go toolchain, solvers", "T2 govc", "T3 reflect.Value model", "value functions are pure lookups; destinations of one assignment are distinct slots (assumed)"},
 	})
 }
+
+func init() {
+	register(&PropDef{
+		ID: "C11", Patterns: []string{"./interp"},
+		Extra:   func(r *Run) { r.phaseOrder(); r.frameLayoutResync() },
+		Covered: []string{"resizeFrame keeps every existing global slot (same location) and only grows the frame", "Execute phase order", "the importer's frame layout is re-synchronised after every successful source import"},
+		Uncov:   []string{"equality of outputs across cuts of a program", "incremental parse classification (ast.go parse / wrapInMain)", "symbol redefinition in gta/cfg", "Compile/Execute vs Eval equivalence"},
+		Trusted: []string{"T1 go toolchain, solvers", "T2 govc"},
+	})
+}
